@@ -14,7 +14,8 @@ OPNAMES = {1: "insert_text", 2: "delete_before_cursor", 3: "delete", 4: "newline
            6: "insert_line_below", 7: "join_next_line", 8: "swap_characters_before_cursor",
            9: "transform_current_line", 10: "transform_region", 11: "indent", 12: "unindent",
            13: "set_text", 14: "set_cursor_position", 15: "cursor_left", 16: "cursor_right",
-           17: "backward-delete-char", 18: "delete-char", 19: "self-insert", 20: "transpose-chars"}
+           17: "backward-delete-char", 18: "delete-char", 19: "self-insert", 20: "transpose-chars",
+           21: "join_selected_lines"}
 
 
 def apply_F(code, s):
@@ -88,6 +89,13 @@ def impl_step(b, op):
         get_by_name("self-insert").handler(make_event(b, op[2], unS(op[1])))
     elif k == 20:
         get_by_name("transpose-chars").handler(make_event(b))
+    elif k == 21:
+        from prompt_toolkit.selection import SelectionState
+        b.selection_state = SelectionState(original_cursor_position=op[1])
+        try:
+            b.join_selected_lines(separator=unS(op[2]))
+        finally:
+            b.selection_state = None
     else:
         raise ValueError(k)
     return ret
@@ -219,6 +227,13 @@ def oracle_step(t0, c0, op, status, t1, c1, ret, views):
             return ("transpose-chars raised", "raise")
         if sorted(t1) != sorted(t0) or len([i for i in range(len(t0)) if t0[i] != t1[i]]) > 2:
             return ("transpose-chars: more than two characters changed", "transpose")
+    elif k == 21 and 0 <= op[1] <= len(t0):
+        if status != 0:
+            return ("join_selected_lines raised", "raise")
+        a, e = sorted([c0, op[1]])
+        mid = "".join(l.lstrip(" ") + unS(op[2]) for l in t0[a:e].splitlines())
+        if t1 != t0[:a] + mid + t0[e:]:
+            return ("join_selected_lines: text outside the selection changed, or lines not joined by the separator", "join_selected")
     elif k == 9:
         if status != 0:
             return ("transform_current_line raised", "raise")
@@ -285,6 +300,8 @@ def single_ops(n_text):
             for c in (0, 1, 2):
                 ops += [[11, a, e, c], [12, a, e, c]]
     ops += [[13, S("")], [13, S("q\nr")], [14, -3], [14, 0], [14, 2], [14, 99]]
+    for o in range(0, n_text + 1):
+        ops += [[21, o, S(" ")], [21, o, S("")]]
     return ops
 
 
@@ -300,7 +317,9 @@ def rand_text(rng, maxlen):
 
 
 def rand_op(rng, tlen):
-    k = rng.choice([1, 1, 1, 2, 2, 3, 3, 4, 5, 6, 7, 8, 9, 10, 11, 12, 13, 14, 15, 16, 17, 18, 19, 20])
+    k = rng.choice([1, 1, 1, 2, 2, 3, 3, 4, 5, 6, 7, 8, 9, 10, 11, 12, 13, 14, 15, 16, 17, 18, 19, 20, 21])
+    if k == 21:
+        return [21, rng.randint(0, tlen), S(rng.choice([" ", "", ", "]))]
     cnt = lambda: rng.choice([-1, 0, 1, 1, 2, 3, tlen, tlen + 1, 10 ** 6])  # noqa
     if k == 1:
         return [1, S(rand_text(rng, 4)), rng.randint(0, 1), rng.randint(0, 1)]
